@@ -186,8 +186,13 @@ func receiveFromTransport(ctx context.Context, c *channel, done chan<- struct{})
 				log.Printf("receiveFromTransport: %v", err)
 				// The inbound side of the session is lost (undecodable data, oversized envelope, broken
 				// connection) and nobody will read from it again: the session is over. Leaving the
-				// state 'established' made the owner keep using a deaf channel forever.
-				c.setStateWLock(SessionStateFailed)
+				// state 'established' made the client keep using a deaf channel forever. Only the
+				// client does this here: a server channel is ended by the goroutine serving it, and
+				// marking it failed underneath a concurrent FinishSession would move the state
+				// backwards (failed -> finished).
+				if c.client {
+					c.setStateWLock(SessionStateFailed)
+				}
 			}
 			return
 		}
